@@ -6,3 +6,5 @@
 #![allow(missing_docs, unreachable_pub, dead_code, missing_debug_implementations)]
 
 pub use iroh_base::verif_hooks::{event, events_enabled, pause};
+
+pub mod store;
